@@ -1,14 +1,25 @@
 /-
-  Lemmas/DriverFacts — reasoning about the driver monad `DM = ExceptT Exn (StateM DState)` of Model/Driver.
+  Lemmas/DriverFacts — reasoning about the driver monad `DM = ExceptT Exn (StateM DState)` of Model/Driver
+  (used by Wip/C18: C18 backups, C04 exit status, C09 atomicity / ordering).
 
-  * `run_*`: how `pure`/`bind`/`throw`/`get`/`set`/`modify`/`if`/`forIn` run (a `DM α` is a function
-    `DState → Except Exn α × DState`), and the exact behaviour of `doOp` / `tryOp`;
+  * `run_*`: how `pure`/`bind`/`throw`/`get`/`set`/`modify`/`if`/`liftE`/`emit`/`failNow` run (a `DM α` is a function
+    `DState → Except Exn α × DState`); `doOp_run`/`tryOp_run`/`doOp_cases`/`tryOp_cases`/`doOp_run_ok`: the exact
+    behaviour of the two primitives; `run_opCreat` … `run_opRename`, `makeBackupFor_run`;
+  * `Fs.lookup_set_self`/`_ne`, `Fs.lookup_erase_self`/`_ne`, `Fs.stat_of_file`: the tree after `set`/`erase`;
   * `Spec R E m`: relational specification — `R s s'` for every normal completion of `m` from `s` in `s'`,
-    `E e s s'` for every abort with exception `e`; closed under the monad operations when `(R, E)` is `Good`;
-  * instances: `TrExt A` (the trace grows by operations satisfying `A`, whatever the outcome), `NoBad Bad`
-    (no exception of class `Bad` is thrown), `Atomic A Bad` (an abort of class `Bad` has performed only `A`
-    operations), `ReadOnly` (state untouched, no exception), Hoare triples `Tr P Q` on normal completion and
-    the relation `Neutral` (failure flag and "a bad event was printed" both unchanged).
+    `E e s s'` for every abort with exception `e`; `Spec.bind'` (general), and for `Good R E` (preorder + absorption)
+    `Spec.bind/pure/get/ite/forIn/liftE`, primitives `Spec.doOp/tryOp/modify/emit/failNow/throw`, `ReadOnly`;
+  * tactic `spec_walk g` (`g : Good R E`): walks through an unfolded `do` block (binds, ifs, matches, `for` loops, the
+    join points `have __do_jp := …`, each proved once); leaves are closed by the extensible `spec_leaf`;
+  * instances:
+      `TrExt A`   the trace grows by operations satisfying `A`, whatever the outcome (`…_trExt`, `TrExt.seq2`);
+      `Quiet`     failure flag unchanged, only harmless events, only `system_error` thrown (`…_quiet`, `quiet_leaf`);
+      `Neutral`   the same on normal completion only (`neutral_leaf`);
+      `NoText`    no `parser_error`/`invalid_argument` is thrown (`applyPatch_error`, `allRejectBytes_error`, …);
+      `Atomic`    an abort by a text exception has performed only `Tame` operations (`atomic_walk`,
+                  `processSection_atomic`);
+      `Tr P Q`    Hoare triples on normal completion; `Honest s := (hadFailure ↔ a bad event was printed)`
+                  (`honest_walk`, `processSection_honest`, `sectionLoop_honest`, `processPatchM_honest`).
 -/
 import PatchModel.Model.Driver
 import PatchModel.Lemmas.Apply
@@ -356,28 +367,30 @@ macro_rules | `(tactic| spec_leaf $g) => `(tactic| with_reducible first
   | exact Spec.pure $g _
   | exact Spec.get $g
   | assumption
-  | apply_assumption
+  | apply_assumption -exfalso -symm only [*]
   | exact Spec.fsExists $g _
   | exact Spec.fsIsRegular $g _
   | exact Spec.fsGetPerms $g _)
 
-macro_rules | `(tactic| spec_walk $g) => `(tactic| (
+syntax "spec_step " term:max : tactic
+macro_rules | `(tactic| spec_step $g) => `(tactic| (
   first
-  | spec_leaf $g
   | (extract_lets -underBinder +onlyGivenNames jp
      first
      | (refine Spec.cut2 jp (fun x y => ?_) (fun hjp => ?_)
-        rotate_left; focus (clear_value jp; spec_walk $g)
-        rotate_right; focus (dsimp -zeta only [jp]; spec_walk $g))
+        rotate_left; focus (clear_value jp)
+        rotate_right; focus (dsimp -zeta only [jp]))
      | (refine Spec.cut1 jp (fun x => ?_) (fun hjp => ?_)
-        rotate_left; focus (clear_value jp; spec_walk $g)
-        rotate_right; focus (dsimp -zeta only [jp]; spec_walk $g))
-     | (clear_value jp; spec_walk $g))
-  | (with_reducible refine Spec.bind $g ?_ (fun _ => ?_) <;> spec_walk $g)
-  | (with_reducible refine Spec.ite ?_ ?_ <;> spec_walk $g)
-  | (with_reducible refine Spec.forIn $g _ _ (fun _ _ => ?_) _ ; spec_walk $g)
-  | (split <;> spec_walk $g)
-  | skip))
+        rotate_left; focus (clear_value jp)
+        rotate_right; focus (dsimp -zeta only [jp]))
+     | (clear_value jp))
+  | (with_reducible refine Spec.bind $g ?_ (fun _ => ?_))
+  | (with_reducible refine Spec.ite ?_ ?_)
+  | (with_reducible refine Spec.forIn $g _ _ (fun _ _ => ?_) _)
+  | spec_leaf $g
+  | split))
+
+macro_rules | `(tactic| spec_walk $g) => `(tactic| repeat' spec_step $g)
 
 /-! ### `TrExt A`: the trace grows by operations in `A` (whatever the outcome) -/
 
@@ -431,7 +444,7 @@ end
 
 /-- leaves of a `TrExt` walk; side conditions `A op` are tried with `assumption`/`simp` -/
 syntax "trext_side" : tactic
-macro_rules | `(tactic| trext_side) => `(tactic| first | assumption | apply_assumption | (intros; simp [FsOp.isTmp]; done))
+macro_rules | `(tactic| trext_side) => `(tactic| first | assumption | apply_assumption -exfalso -symm only [*] | (intros; simp [FsOp.isTmp]; done))
 
 macro_rules | `(tactic| spec_leaf $_) => `(tactic| with_reducible first
   | exact TrExt.throw _
@@ -639,5 +652,435 @@ macro_rules | `(tactic| spec_leaf $_) => `(tactic| with_reducible first
 
 theorem finalizeDeferred_quiet : Quiet finalizeDeferred := by
   unfold finalizeDeferred; spec_walk good_quiet
+
+/-! ### which exceptions can come out of the applier and the reject writer -/
+
+/-- the exceptions caused by the patch text -/
+def TextErr (e : Exn) : Prop := e = .parserError ∨ e = .invalidArgument
+instance : DecidablePred TextErr := fun e => by unfold TextErr; exact inferInstance
+
+theorem ctxStep_error {h : Hunk} {s : CtxState} {pl : PatchLine} {e : Exn} (he : ctxStep h s pl = .error e) :
+    e = .runtimeError := by
+  unfold ctxStep at he
+  repeat' split at he
+  all_goals first | (cases he; rfl) | cases he
+
+theorem ctxFold_error {h : Hunk} : ∀ {ls : List PatchLine} {s : CtxState} {e : Exn}, ctxFold h s ls = .error e →
+    e = .runtimeError
+  | [], s, e, he => by simp [ctxFold] at he
+  | pl :: rest, s, e, he => by
+    unfold ctxFold at he
+    split at he
+    · next e' h1 => cases he; exact ctxStep_error h1
+    · exact ctxFold_error he
+
+theorem writeHunkContext_error {h : Hunk} {e : Exn} (he : writeHunkContext h = .error e) : e = .runtimeError := by
+  unfold writeHunkContext at he
+  split at he
+  · next e' h1 => cases he; exact ctxFold_error h1
+  · repeat' split at he
+    all_goals first | (cases he; rfl) | cases he
+
+theorem writeReject_error {p : Patch} {fmt : RejectFormat} {n : Nat} {h : Hunk} {e : Exn}
+    (he : writeReject p fmt n h = .error e) : e = .runtimeError := by
+  unfold writeReject at he
+  split at he
+  · cases he
+  · split at he
+    · next e' h1 => cases he; exact writeHunkContext_error h1
+    · cases he
+
+theorem allRejectBytes_error {p : Patch} {fmt : RejectFormat} : ∀ {hs : List Hunk} {n : Nat} {e : Exn},
+    allRejectBytes p fmt n hs = .error e → e = .runtimeError
+  | [], n, e, he => by simp [allRejectBytes] at he
+  | h :: hs, n, e, he => by
+    unfold allRejectBytes at he
+    split at he
+    · next e' h1 => cases he; exact writeReject_error h1
+    · next b h1 =>
+      cases h2 : allRejectBytes p fmt (n + 1) hs with
+      | error e' => rw [h2] at he; cases he; exact allRejectBytes_error h2
+      | ok b' => rw [h2] at he; cases he
+
+theorem finishHunk_error {file : List Line} {o : ApplyOpts} {p : Patch} {s : AState} {num : Nat} {h : Hunk}
+    {loc : Option Location} {e : Exn} (he : finishHunk file o p s num h loc = .error e) :
+    e = .outOfRange ∨ e = .runtimeError := by
+  unfold finishHunk at he
+  simp only [] at he
+  split at he
+  · next e' h1 =>
+    cases he
+    split at h1
+    · split at h1
+      · cases h1; exact Or.inl rfl
+      · split at h1
+        · cases h1; exact Or.inl rfl
+        · cases h1
+    · split at h1
+      · next e'' h2 => cases h1; exact Or.inr (writeReject_error h2)
+      · cases h1
+  · cases he
+
+theorem applyRest_error {file : List Line} {o : ApplyOpts} {p : Patch} : ∀ {hs : List Hunk} {s : AState} {num : Nat} {e : Exn},
+    applyRest file o p s num hs = .error e → e = .outOfRange ∨ e = .runtimeError
+  | [], s, num, e, he => by simp [applyRest] at he
+  | h :: hs, s, num, e, he => by
+    unfold applyRest at he
+    simp only [] at he
+    split at he
+    · next e' h1 => cases he; exact finishHunk_error h1
+    · exact applyRest_error he
+
+theorem applyPatch_error {file : List Line} {p0 : Patch} {o : ApplyOpts} {tty : Option (List Bool)} {e : Exn}
+    (he : applyPatch file p0 o tty = .error e) : e = .outOfRange ∨ e = .runtimeError ∨ e = .systemError := by
+  rcases Apply.applyPatch_cases file p0 o tty with ⟨h1, _⟩ | ⟨p', s1, _, _, h1⟩
+  · rw [h1] at he; cases he; exact Or.inr (Or.inr rfl)
+  · rw [h1] at he
+    unfold Apply.runLoop at he
+    split at he
+    · next e' h2 =>
+      cases he
+      rcases applyRest_error h2 with h | h
+      · exact Or.inl h
+      · exact Or.inr (Or.inl h)
+    · cases he
+
+
+/-! ### `NoText`: no exception caused by the patch text (`parser_error`, `invalid_argument`) is thrown -/
+
+abbrev NoText {α} (m : DM α) : Prop := Spec (fun _ _ => True) (fun e _ _ => ¬ TextErr e) m
+
+theorem good_noText : Good (fun _ _ => True) (fun e _ _ => ¬ TextErr e) :=
+  ⟨fun _ => trivial, fun _ _ => trivial, fun _ h => h⟩
+
+theorem NoText.of_quiet {α} {m : DM α} (h : Quiet m) : NoText m :=
+  Spec.weaken h (fun _ _ _ => trivial) (fun _ _ _ h => by rw [h.1]; decide)
+
+section
+variable {α : Type}
+theorem NoText.throw (e : Exn) (h : ¬ TextErr e) : NoText (throw e : DM α) := Spec.throw _ (fun _ => h)
+theorem NoText.modify (f : DState → DState) : NoText (modify f : DM Unit) := Spec.modify f (fun _ => trivial)
+theorem NoText.emit (ev : DEv) : NoText (emit ev) := Spec.emit ev (fun _ => trivial)
+theorem NoText.failNow : NoText failNow := Spec.failNow (fun _ => trivial)
+theorem NoText.liftE (x : Except Exn α) (h : ∀ e, x = .error e → ¬ TextErr e) : NoText (liftE x) :=
+  Spec.liftE good_noText x (fun e he _ => h e he)
+end
+
+/-- the `Quiet` facts, as a tactic -/
+syntax "quiet_leaf" : tactic
+macro_rules | `(tactic| quiet_leaf) => `(tactic| with_reducible first
+  | exact readTty_quiet | exact createTemp_quiet | exact opCreat_quiet _ | exact opWrite_quiet _ _
+  | exact opChmod_quiet _ _ | exact opRename_quiet _ _
+  | exact writeFile_quiet _ _ | exact ensureParentDirs_quiet _ | exact permissionCallback_quiet _ _ _
+  | exact removeFileAndEmptyParents_quiet _ | exact fixPermissionsIfNeeded_quiet _ _
+  | exact guessFilepath_quiet _ _ | exact checkWithUser_quiet _ _
+  | exact promptForFilepath_quiet _ | exact makeBackupFor_quiet _ _ | exact writePatchedResult_quiet _ _ _ _
+  | exact finalizeDeferred_quiet
+  | exact Quiet.doOp _ | exact Quiet.tryOp _ _)
+
+macro_rules | `(tactic| spec_leaf $_) => `(tactic| with_reducible first
+  | exact NoText.throw _ (by decide)
+  | exact NoText.emit _
+  | exact NoText.failNow
+  | exact NoText.modify _
+  | exact NoText.of_quiet (by quiet_leaf)
+  | exact Neutral.of_quiet (by quiet_leaf))
+
+theorem refuseToPatch_noText (o : Options) (f : Bytes) (p : Patch) : NoText (refuseToPatch o f p) := by
+  unfold refuseToPatch; spec_walk good_noText
+  next e h => rw [allRejectBytes_error h]; exact NoText.throw _ (by decide)
+
+theorem applyPatch_noText (file : List Line) (p : Patch) (o : ApplyOpts) (tty : Option (List Bool)) :
+    NoText (liftE (applyPatch file p o tty)) := by
+  refine NoText.liftE _ ?_
+  intro e he
+  rcases applyPatch_error he with h | h | h <;> rw [h] <;> decide
+
+macro_rules | `(tactic| spec_leaf $_) => `(tactic| with_reducible first
+  | exact refuseToPatch_noText _ _ _
+  | exact applyPatch_noText _ _ _ _)
+
+theorem parseBodyM_trExt {A : FsOp → Prop} (b : Bool) (p : Patch) : TrExt A (parseBodyM b p) := by
+  unfold parseBodyM; spec_walk (good_ext A)
+theorem parseBodyM_neutral (b : Bool) (p : Patch) : Neutral (parseBodyM b p) := by
+  unfold parseBodyM; spec_walk good_neutral
+
+theorem trExt_of_readOnly {α} {A : FsOp → Prop} {m : DM α} (h : ReadOnly m) : TrExt A m := h.spec (good_ext A)
+
+theorem readTty_trExt {A : FsOp → Prop} : TrExt A readTty := by
+  constructor
+  · intro s a s' h
+    unfold readTty at h
+    rw [run_bind, run_get] at h
+    simp only [] at h
+    split at h
+    · cases h
+    · cases h; exact ExtR.refl A s
+    · rw [run_bind, run_set] at h; cases h; exact ExtR.of_eq rfl
+  · intro s e s' h
+    unfold readTty at h
+    rw [run_bind, run_get] at h
+    simp only [] at h
+    split at h
+    · cases h; exact ExtR.refl A s
+    · cases h
+    · rw [run_bind, run_set] at h; cases h
+
+macro_rules | `(tactic| spec_leaf $_) => `(tactic| with_reducible first
+  | exact parseBodyM_trExt _ _ | exact parseBodyM_neutral _ _ | exact readTty_trExt)
+
+theorem guessFilepath_trExt {A : FsOp → Prop} (p : Patch) (r : Bool) : TrExt A (guessFilepath p r) := by
+  unfold guessFilepath; spec_walk (good_ext A)
+theorem checkWithUser_trExt {A : FsOp → Prop} (q : String) (d : Bool) : TrExt A (checkWithUser q d) := by
+  unfold checkWithUser; spec_walk (good_ext A)
+theorem promptForFilepath_trExt {A : FsOp → Prop} : ∀ n, TrExt A (promptForFilepath n)
+  | 0 => by unfold promptForFilepath; spec_walk (good_ext A)
+  | n + 1 => by
+    have ih := @promptForFilepath_trExt A n
+    have := @checkWithUser_trExt A
+    unfold promptForFilepath; spec_walk (good_ext A)
+
+/-! ### `Atomic`: an abort caused by the patch text has only performed harmless operations -/
+
+/-- operations on anonymous temporaries, and `chmod` -/
+def Tame (op : FsOp) : Prop := op.isTmp = true ∨ ∃ p m, op = FsOp.chmod p m
+
+abbrev Atomic {α} (m : DM α) : Prop := Spec (fun _ _ => True) (fun e s s' => TextErr e → ExtR Tame s s') m
+
+section
+variable {α β : Type}
+theorem Atomic.bind {m : DM α} {f : α → DM β} (hm : TrExt Tame m) (hf : ∀ a, Atomic (f a)) : Atomic (m >>= f) :=
+  Spec.bind' hm hf (fun _ _ _ _ _ => trivial) (fun _ _ _ h _ => h) (fun _ _ _ _ h1 h2 ht => ExtR.trans h1 (h2 ht))
+theorem Atomic.of_trExt {m : DM α} (h : TrExt Tame m) : Atomic m :=
+  Spec.weaken h (fun _ _ _ => trivial) (fun _ _ _ h _ => h)
+theorem Atomic.of_noText {m : DM α} (h : NoText m) : Atomic m :=
+  Spec.weaken h (fun _ _ _ => trivial) (fun _ _ _ h ht => absurd ht h)
+theorem Atomic.of_noText_bind {m : DM α} {f : α → DM β} (h : NoText (m >>= f)) : Atomic (m >>= f) := Atomic.of_noText h
+theorem Atomic.of_noText_createTemp {f : Unit → DM β} (h : NoText (createTemp >>= f)) : Atomic (createTemp >>= f) :=
+  Atomic.of_noText h
+theorem Atomic.pure (a : α) : Atomic (Pure.pure a : DM α) := Spec.pure' a (fun _ => trivial)
+theorem Atomic.throw (e : Exn) : Atomic (throw e : DM α) := Spec.throw e (fun s _ => ExtR.refl Tame s)
+end
+
+theorem tame_tmpCreate : Tame .tmpCreate := Or.inl rfl
+theorem tame_tmpUnlink : Tame .tmpUnlink := Or.inl rfl
+theorem tame_chmod (p : Bytes) (m : Nat) : Tame (.chmod p m) := Or.inr ⟨p, m, rfl⟩
+
+/-- programs that only perform `Tame` operations -/
+syntax "tame_leaf" : tactic
+macro_rules | `(tactic| tame_leaf) => `(tactic| with_reducible first
+  | exact Spec.get (good_ext Tame)
+  | exact Spec.pure (good_ext Tame) _
+  | exact TrExt.liftE _
+  | exact TrExt.modify _ (fun _ => rfl)
+  | exact TrExt.emit _
+  | exact TrExt.failNow
+  | exact TrExt.throw _
+  | exact createTemp_trExt tame_tmpCreate tame_tmpUnlink
+  | exact fixPermissionsIfNeeded_trExt tame_chmod _ _
+  | exact Spec.fsExists (good_ext Tame) _
+  | exact Spec.fsIsRegular (good_ext Tame) _
+  | exact Spec.fsGetPerms (good_ext Tame) _
+  | exact guessFilepath_trExt _ _
+  | exact promptForFilepath_trExt _
+  | exact checkWithUser_trExt _ _
+  | exact parseBodyM_trExt _ _)
+
+/-- the walk for `Atomic`: as long as the statements are `Tame` the walk goes on; the first other statement must start
+    a block that cannot throw a text exception any more -/
+syntax "atomic_step" : tactic
+syntax "atomic_walk" : tactic
+macro_rules | `(tactic| atomic_step) => `(tactic| (
+  first
+  | (with_reducible first | exact Atomic.pure _ | exact Atomic.throw _ | assumption | apply_assumption -exfalso -symm only [*])
+  | (extract_lets -underBinder +onlyGivenNames jp
+     first
+     | (refine Spec.cut2 jp (fun x y => ?_) (fun hjp => ?_)
+        rotate_left; focus (clear_value jp)
+        rotate_right; focus (dsimp -zeta only [jp]))
+     | (refine Spec.cut1 jp (fun x => ?_) (fun hjp => ?_)
+        rotate_left; focus (clear_value jp)
+        rotate_right; focus (dsimp -zeta only [jp]))
+     | (clear_value jp))
+  | ((with_reducible refine Atomic.of_noText_createTemp ?_); spec_walk good_noText; done)
+  | ((with_reducible refine Atomic.bind ?_ (fun _ => ?_)); focus (tame_leaf; done))
+  | (with_reducible refine Spec.ite ?_ ?_)
+  | ((with_reducible refine Atomic.of_noText_bind ?_); spec_walk good_noText)
+  | split))
+macro_rules | `(tactic| atomic_walk) => `(tactic| repeat' atomic_step)
+
+theorem processSection_atomic (o : Options) (format : Format) : Atomic (processSection o format) := by
+  unfold processSection
+  atomic_walk
+
+/-! ### Hoare triples on normal completion; the failure flag tells the truth -/
+
+abbrev Tr {α} (P Q : DState → Prop) (m : DM α) : Prop := Spec (fun s s' => P s → Q s') (fun _ _ _ => True) m
+
+theorem good_tr (P : DState → Prop) : Good (fun s s' => P s → P s') (fun _ _ _ => True) :=
+  ⟨fun _ h => h, fun h1 h2 h => h2 (h1 h), fun _ _ => trivial⟩
+
+/-- the failure flag is set -/
+def HF (s : DState) : Prop := s.hadFailure = true
+/-- a bad event has been printed -/
+def HB (s : DState) : Prop := ∃ ev ∈ s.out, isBadEv ev = true
+/-- the failure flag is set exactly when a bad event has been printed -/
+def Honest (s : DState) : Prop := HF s ↔ HB s
+
+/-- preserved by `QR` steps -/
+def StableQ (P : DState → Prop) : Prop := ∀ s s', QR s s' → P s → P s'
+
+theorem QR.hf {s s' : DState} (h : QR s s') : HF s' ↔ HF s := by unfold HF; rw [h.1]
+theorem QR.hb {s s' : DState} (h : QR s s') : HB s' ↔ HB s := by
+  obtain ⟨_, evs, e, hn⟩ := h
+  unfold HB; rw [e]
+  constructor
+  · rintro ⟨ev, hm, hb⟩
+    rcases List.mem_append.1 hm with h | h
+    · exact ⟨ev, h, hb⟩
+    · rw [hn ev h] at hb; cases hb
+  · rintro ⟨ev, hm, hb⟩
+    exact ⟨ev, List.mem_append.2 (Or.inl hm), hb⟩
+
+theorem stable_HF : StableQ HF := fun _ _ h hp => h.hf.2 hp
+theorem stable_HB : StableQ HB := fun _ _ h hp => h.hb.2 hp
+theorem stable_Honest : StableQ Honest := fun _ _ h hp => by unfold Honest; rw [h.hf, h.hb]; exact hp
+
+section
+variable {α β : Type} {P Q R : DState → Prop}
+theorem Tr.bind {m : DM α} {f : α → DM β} (hm : Tr P Q m) (hf : ∀ a, Tr Q R (f a)) : Tr P R (m >>= f) :=
+  Spec.bind' hm hf (fun _ _ _ h1 h2 h => h2 (h1 h)) (fun _ _ _ _ => trivial) (fun _ _ _ _ _ _ => trivial)
+theorem Tr.of_neutral {m : DM α} (hP : StableQ P) (h : Neutral m) : Tr P P m :=
+  Spec.weaken h (fun s s' hq => hP s s' hq) (fun _ _ _ _ => trivial)
+theorem Tr.pure_self (a : α) : Tr P P (Pure.pure a : DM α) := Spec.pure' a (fun _ h => h)
+theorem Tr.throw (e : Exn) : Tr P Q (throw e : DM α) := Spec.throw e (fun _ => trivial)
+end
+
+theorem HB.emit {s : DState} {ev : DEv} (h : isBadEv ev = true) : HB { s with out := s.out ++ [ev] } :=
+  ⟨ev, by simp, h⟩
+theorem HB.mono_emit {s : DState} {ev : DEv} (h : HB s) : HB { s with out := s.out ++ [ev] } := by
+  obtain ⟨e, hm, hb⟩ := h
+  exact ⟨e, List.mem_append.2 (Or.inl hm), hb⟩
+
+theorem Tr.emit_bad_honest (ev : DEv) (h : isBadEv ev = true) : Tr Honest HB (emit ev) :=
+  Spec.emit ev (fun _ _ => HB.emit h)
+theorem Tr.emit_bad_any {P : DState → Prop} (ev : DEv) (h : isBadEv ev = true) : Tr P HB (emit ev) :=
+  Spec.emit ev (fun _ _ => HB.emit h)
+theorem Tr.emit_bad_hf (ev : DEv) (h : isBadEv ev = true) : Tr HF Honest (emit ev) :=
+  Spec.emit ev (fun _ hf => ⟨fun _ => HB.emit h, fun _ => hf⟩)
+theorem Tr.emit_hb (ev : DEv) : Tr HB HB (emit ev) := Spec.emit ev (fun _ h => HB.mono_emit h)
+theorem Tr.failNow_honest : Tr Honest HF failNow := Spec.failNow (fun _ _ => rfl)
+theorem Tr.failNow_hb : Tr HB Honest failNow :=
+  Spec.failNow (fun _ hb => ⟨fun _ => hb, fun _ => rfl⟩)
+
+theorem Neutral.emit (ev : DEv) (h : isBadEv ev = false) : Neutral (emit ev) := Neutral.of_quiet (Quiet.emit ev h)
+theorem Neutral.msgs (f : DState → DState) (ms : List Msg) (h1 : ∀ s, (f s).hadFailure = s.hadFailure)
+    (h2 : ∀ s, (f s).out = s.out ++ ms.map DEv.msg) : Neutral (_root_.modify f : DM Unit) :=
+  Spec.modify f (fun s => ⟨h1 s, ms.map DEv.msg, h2 s, by
+    intro ev hev
+    obtain ⟨m, _, rfl⟩ := List.mem_map.1 hev
+    rfl⟩)
+
+/-- programs that leave the failure flag alone and print nothing bad (on normal completion) -/
+syntax "neutral_leaf" : tactic
+macro_rules | `(tactic| neutral_leaf) => `(tactic| with_reducible first
+  | exact Spec.get good_neutral
+  | exact Spec.pure good_neutral _
+  | exact Neutral.of_quiet (by quiet_leaf)
+  | exact Neutral.liftE _
+  | exact Neutral.throw _
+  | exact Neutral.emit _ rfl
+  | exact Neutral.modify _ (fun _ => rfl) (fun _ => rfl)
+  | exact Neutral.msgs _ _ (fun _ => rfl) (fun _ => rfl)
+  | exact parseBodyM_neutral _ _
+  | exact Spec.fsExists good_neutral _
+  | exact Spec.fsIsRegular good_neutral _
+  | exact Spec.fsGetPerms good_neutral _)
+
+syntax "stable_leaf" : tactic
+macro_rules | `(tactic| stable_leaf) => `(tactic| first
+  | exact stable_Honest | exact stable_HB | exact stable_HF)
+
+macro_rules | `(tactic| spec_leaf $_) => `(tactic| with_reducible first
+  | exact Tr.emit_hb _
+  | (refine Tr.of_neutral ?_ ?_ <;> first | stable_leaf | neutral_leaf))
+
+/-- `refuse_to_patch` always prints a bad event -/
+theorem refuseToPatch_hb {P : DState → Prop} (o : Options) (f : Bytes) (p : Patch) : Tr P HB (refuseToPatch o f p) := by
+  unfold refuseToPatch
+  refine Tr.bind (Tr.emit_bad_any _ rfl) (fun _ => ?_)
+  spec_walk (good_tr HB)
+
+/-- the statements that change the failure flag or print a bad event -/
+syntax "honest_leaf" : tactic
+macro_rules | `(tactic| honest_leaf) => `(tactic| with_reducible first
+  | (refine Tr.emit_bad_honest _ ?_; with_unfolding_all rfl)
+  | (refine Tr.emit_bad_hf _ ?_; with_unfolding_all rfl)
+  | exact Tr.emit_hb _
+  | exact Tr.failNow_honest
+  | exact Tr.failNow_hb
+  | exact refuseToPatch_hb _ _ _
+  | (refine Tr.of_neutral ?_ ?_ <;> first | stable_leaf | neutral_leaf))
+
+syntax "honest_step" : tactic
+syntax "honest_walk" : tactic
+macro_rules | `(tactic| honest_step) => `(tactic| (
+  first
+  | (extract_lets -underBinder +onlyGivenNames jp
+     first
+     | (refine Spec.cut2 jp (fun x y => ?_) (fun hjp => ?_)
+        rotate_left; focus (clear_value jp)
+        rotate_right; focus (dsimp -zeta only [jp]))
+     | (refine Spec.cut1 jp (fun x => ?_) (fun hjp => ?_)
+        rotate_left; focus (clear_value jp)
+        rotate_right; focus (dsimp -zeta only [jp]))
+     | (clear_value jp))
+  | ((with_reducible refine Tr.bind (Q := ?_) ?_ (fun _ => ?_)); rotate_left; focus (honest_leaf; done))
+  | (with_reducible refine Spec.ite ?_ ?_)
+  | (with_reducible first
+      | exact Tr.pure_self _
+      | exact Tr.throw _
+      | assumption
+      | apply_assumption -exfalso -symm only [*])
+  | (with_reducible (refine Tr.of_neutral ?_ ?_ <;> first | stable_leaf | neutral_leaf))
+  | split))
+macro_rules | `(tactic| honest_walk) => `(tactic| repeat' honest_step)
+
+theorem processSection_honest (o : Options) (format : Format) : Tr Honest Honest (processSection o format) := by
+  unfold processSection
+  honest_walk
+
+theorem sectionLoop_honest (o : Options) (format : Format) : ∀ n, Tr Honest Honest (sectionLoop o format n)
+  | 0 => by unfold sectionLoop; exact Tr.throw _
+  | n + 1 => by
+    have ih := sectionLoop_honest o format n
+    have hs := processSection_honest o format
+    unfold sectionLoop
+    spec_walk (good_tr Honest)
+
+theorem processPatchM_honest (o : Options) : Tr Honest Honest (processPatchM o) := by
+  unfold processPatchM
+  extract_lets -underBinder +onlyGivenNames jp
+  refine Spec.cut1 jp (fun x => ?_) (fun hjp => ?_)
+  · dsimp -zeta only [jp]
+    have hl := sectionLoop_honest o
+    spec_walk (good_tr Honest)
+  · clear_value jp
+    split
+    · constructor
+      · intro s a s' hr
+        rw [run_bind, run_get] at hr
+        simp only [] at hr
+        split at hr
+        · rw [run_bind, run_set] at hr
+          intro hs
+          exact (hjp ()).ok _ _ _ hr hs
+        · rw [run_bind, run_throw] at hr; cases hr
+      · intros; trivial
+    · exact hjp ()
+
+/-- the exit status of `main` -/
+theorem runPatch_honest (o : Options) (s0 s : DState) (h0 : Honest s0) (h : (processPatchM o).run s0 = (.ok (), s)) :
+    Honest s := (processPatchM_honest o).ok _ _ _ h h0
 
 end PatchModel.DriverFacts
